@@ -337,6 +337,47 @@ def run(spec, res):
         except Exception as e:
             res.hook('writer.return')
             problems.append('writer (from scaled read) raised %r' % (e,))
+        # (5b) an in-memory copy of the scaled read written twice: the
+        # writer must not consume its source (both files hold the raw values
+        # and the copy is unchanged)
+        od3 = os.path.join(d, 'out3')
+        os.mkdir(od3)
+        try:
+            g = fs.copy()
+            keys3 = [k for k in c['vars'] if k in g.variables.keys()]
+            pre = {k: np.array(np.asarray(g.variables[k][...]), copy=True)
+                   for k in keys3}
+            outs = []
+            for n in (0, 1):
+                o3 = os.path.join(od3, 'out%d.bpch' % n)
+                o = pncgen(g, o3, format='bpch', verbose=0)
+                o.close()
+                res.hook('writer.return')
+                outs.append(open(o3, 'rb').read())
+            for k in keys3:
+                now = np.asarray(g.variables[k][...])
+                if now.shape != pre[k].shape or \
+                        now.tobytes() != pre[k].tobytes():
+                    with np.errstate(all='ignore'):
+                        r = float(np.nanmedian(now / pre[k]))
+                    problems.append('writing changed the source variable %s '
+                                    '(ratio after/before ~%.3g)' % (k, r))
+                    break
+            if outs[0] != outs[1]:
+                problems.append('writing the same in-memory file twice gives '
+                                'different bytes')
+            dec = refbpch.decode(outs[0])
+            ref = refbpch.decode(img)
+            for bi, (a, b) in enumerate(zip(dec['blocks'], ref['blocks'])):
+                if a['data'].shape != b['data'].shape or not np.allclose(
+                        a['data'].astype('f8'), b['data'].astype('f8'),
+                        rtol=8 * np.finfo('f4').eps, atol=0):
+                    problems.append('write from an in-memory copy: raw '
+                                    'values of block %d differ from the '
+                                    'original' % bi)
+                    break
+        except Exception as e:
+            res.note('copy-write-unavailable:%s' % type(e).__name__)
         # (4) block-walking reader
         try:
             f2 = bpch2(path)
